@@ -1,6 +1,6 @@
 SPECIFICATION GenSpec
 CONSTANTS Widths = {0, 2, 5} MaxH = 2 MaxOwn = 1
-  LimbDom = {0, 1, 127, 128, 255, 32768, 65535} IdWidths = {0, 1, 2, 3, 4, 5, 6, 7, 8, 9}
+  LimbDom = {0, 1, 128, 255, 32768, 65535} IdWidths = {0, 1, 2, 3, 4, 5, 6, 7, 8, 9}
   MsgDom <- CMsgDom TextDom <- CTextDom
 VIEW Skel
 ACTION_CONSTRAINT Emit
